@@ -22,7 +22,8 @@ RULE = ("programs = 2-4 constructed quantities (float/int/array/Decimal magnitud
         "drawn from 0, 1, -1, 0.0, 1.0, 2, 0.5, 3; builtin sum() and math.prod() over 1-3 quantities with/without a "
         "start quantity; the augmented forms `y = x; y op= z` of all five operators), value(unit) and value(unit, dtype) with casts that succeed and casts that refuse AFTER the "
         "conversion (list/tuple on scalars, int/int32 on nan/inf, a non-type), unconvertible and malformed unit strings, "
-        "occasional nan/inf magnitudes, == / !=, NumPy functions (sqrt cbrt power sin cos "
+        "occasional nan/inf magnitudes, a broad list of further unary and binary ufuncs (quantity/quantity, "
+        "quantity/number, number/quantity; oracle only), == / !=, NumPy functions (sqrt cbrt power sin cos "
         "tan arcsin arccos arctan absolute floor ceil abs round sum isnan linspace logspace), value(unit), operands "
         "drawn from all live quantities incl. earlier results and x op x, interleaved with and followed by in-place "
         "methods (to text/BaseUnits/Quantity, rebase, abse, rele, in-place array writes) on every live quantity; "
@@ -65,7 +66,7 @@ FAMILIES = {
     "length": ["m", "cm", "km", "mm", "m", "cm"],
     "time": ["s", "ms", "min", "h"],
     "angle": ["deg", "rad", "deg", "'"],
-    "nodim": [None, "%", None, "ppth", "m/cm", "s/ms"],      # ratio units survive only through to()
+    "nodim": [None, "%", "ppth", "PR", "AR", "%", "m/cm", "s/ms"],      # ratio units survive only through to()
     "log": ["dBm", "dBm", "dBmW", "dBW", "Bm"],
     "temp": ["K", "Cel", "K", "degF"],
     "area": ["m2", "cm2", "m*cm"],
@@ -75,12 +76,21 @@ UFUNCS = {
     "root": ["sqrt", "cbrt", "power"],
     "angle": ["sin", "cos", "tan"],
     "arc": ["arcsin", "arccos", "arctan"],
-    "keep": ["absolute", "floor", "ceil", "abs", "round", "negative_ufunc"],
+    # every ufunc without a branch of its own goes through the default `Quantity(f(value), a.baseunits)`
+    "keep": ["absolute", "floor", "ceil", "abs", "round", "negative_ufunc",
+             "exp", "exp2", "expm1", "log", "log2", "log10", "log1p", "sinh", "cosh", "tanh", "arcsinh",
+             "square", "sign", "fabs", "rint", "trunc", "reciprocal", "positive", "deg2rad", "rad2deg"],
     "sum": ["sum"],
     "test": ["isnan"],
 }
 UF_KIND = {n: k for k, ns in UFUNCS.items() for n in ns}
 INPLACE = ("to", "rebase", "abse", "rele", "poke")
+# further ufuncs numpy dispatches through __array_ufunc__ (unary with odd result types, binary with a quantity or a
+# number on either side): judged by the oracle only, never sent to the model, their result is not tracked
+UFX_UNARY = ["isfinite", "isinf", "signbit", "logical_not", "modf", "frexp", "conj", "spacing", "arccosh", "arctanh",
+             "exp", "log", "log10", "tanh", "sinh", "cosh", "expm1", "log1p", "exp2", "log2"]
+UFX_BINARY = ["add", "subtract", "multiply", "divide", "maximum", "minimum", "hypot", "arctan2", "fmod", "power",
+              "greater", "equal", "copysign", "logaddexp"]
 # dtype arguments of value(unit, dtype=…): casts that succeed, casts that refuse scalars (list, tuple), casts that
 # refuse nan/inf (int, int32), and something that is no type at all (refuses everything, after the conversion)
 DTYPES = ("int", "float", "str", "complex", "list", "tuple", "int32", "nosuchtype")
@@ -200,13 +210,19 @@ def gen_prog(rng, maxops):
             prog.append(["ufunc", name, var()])
             if UF_KIND[name] != "test":
                 nvars += 1
-        elif r < 0.75:
+        elif r < 0.73:
+            if rng.random() < 0.5:
+                prog.append(["ufx", rng.choice(UFX_UNARY), var(), None, "unary"])
+            else:
+                prog.append(["ufx", rng.choice(UFX_BINARY), var(), var(),
+                             rng.choice(["qq", "qn", "nq"])])
+        elif r < 0.77:
             prog.append(["space", rng.choice(["lin", "log"]), var(), var()])
             nvars += 1
-        elif r < 0.78:
+        elif r < 0.80:
             prog.append(["space1", rng.choice(["lin", "log"]), var(), rng.choice([0, 1, 3]), rng.random() < 0.5])
             nvars += 1
-        elif r < 0.84:
+        elif r < 0.86:
             # value(unit) and value(unit, dtype=…): the cast runs AFTER the conversion and may refuse
             prog.append(["value", var(), unit()] + ([rng.choice(list(DTYPES))] if rng.random() < 0.5 else []))
         else:
@@ -245,7 +261,7 @@ def gen_mixed_prog(rng):
         elif r < 0.7:
             prog.append(["neg", i])
         elif r < 0.8:
-            prog.append(["ufunc", rng.choice(["absolute", "negative_ufunc", "floor"]), i])
+            prog.append(["ufunc", rng.choice(["absolute", "negative_ufunc", "floor", "exp", "log10", "tanh"]), i])
         elif r < 0.9:
             prog.append(["binnum", rng.choice(["add", "sub", "mul", "div"]), i, rng.choice(NUMBERS), rng.random() < 0.5])
         else:
@@ -702,6 +718,19 @@ class Impl:
                 raise _Skip()
             emit(["eq", ia, ib, facts])
             return
+        if kind == "ufx":
+            name, mode = op[1], op[4]
+            a = V(op[2])
+            rec["roles"] = {op[2]: "operand"}
+            if mode in ("qq",):
+                b = V(op[3])
+                rec["roles"] = {op[3]: "right", op[2]: "left"} if op[2] != op[3] else {op[2]: "both"}
+            rec["name"] = "ufunc." + name + ("" if mode == "unary" else "." + mode)
+            uf = getattr(np, name)
+            fn = {"unary": lambda: uf(a), "qq": lambda: uf(a, b), "qn": lambda: uf(a, 2.0), "nq": lambda: uf(2.0, a)}[mode]
+            call(fn)
+            rec["unmodelled"] = True
+            raise _Skip()               # oracle only: whatever it returned or raised, nothing may have changed
         if kind == "ufunc":
             name = op[1]
             a = V(op[2])
@@ -724,6 +753,9 @@ class Impl:
             rec["name"] = "ufunc." + name
             ok, r = call(fn)
             if not ok:
+                raise _Skip()
+            if uk != "test" and not isinstance(r, Quantity):
+                rec["unmodelled"] = True    # not the shape the model describes: oracle only
                 raise _Skip()
             emit(["ufunc", uk, self.mi(op[2]), facts])
             if uk != "test":
@@ -1021,6 +1053,8 @@ def refs(op):
         return []
     if k == "fold":
         return [(("item", n), v) for n, v in enumerate(op[2])] + ([(3, op[3])] if op[3] is not None else [])
+    if k == "ufx":
+        return [(2, op[2])] + ([(3, op[3])] if op[3] is not None else [])
     if k in ("bin", "cmp", "space"):
         return [(2, op[2]), (3, op[3])]
     if k in ("binnum", "ufunc", "space1"):
